@@ -1,13 +1,20 @@
 import Kio.Proofs.Codec
 import Kio.Proofs.Float
+import Kio.Proofs.RoundtripEq
 import Kio.Model.Current
 import Kio.Generated.All
 /-!
 # C01 — encode then decode is the identity, with exact consumption
 
-For every coherent schema `s` (`Schema.wf`), every well-typed canonical value `v`
-(`Schema.valueOk`), and every suffix `rest`: decoding `enc s v ++ rest` yields `(v, rest)`.
-Instance theorem: every shipped class is coherent (kernel-checked on the regenerated table).
+For every coherent schema `s` (`Schema.wf`), every well-typed value `v` in canonical form
+(`Schema.typedOk`: whole-millisecond durations and timestamps, no all-zero UUID, finite floats) and
+every suffix `rest`: decoding `enc s v ++ rest` consumes exactly the encoding and yields an instance
+**equal to `v` in Python's sense** (`roundtrip_eq`: `Value.pyEq`, the `==` of dataclasses) — namely
+`s.canon v`, `v` with every tagged field that is `==` to its default replaced by the default itself
+(`roundtrip_canon`).  When no tagged field holds a value that is `==` but not identical to its
+default (−0.0 against 0.0 is the only well-typed case; `Schema.valueOk` adds exactly that clause) the
+result is `v` itself (`roundtrip`).  Instance theorem: every shipped class is coherent
+(kernel-checked on the regenerated table).
 -/
 namespace Kio.C01
 open Kio
@@ -40,6 +47,30 @@ theorem roundtrip (env : Env) (ht : env.time = TimeCfg.repaired) (s : Schema) (h
   unfold enc at he; rw [hw] at he
   unfold dec; rw [hr]
   exact Kio.Schema.roundtrip env ht float_exact s v bs hwf hv he rest
+
+/-- **C01, full strength**: decoding the encoding of any well-typed value yields an equal (`==`)
+    instance and consumes exactly the encoding -/
+theorem roundtrip_eq (env : Env) (ht : env.time = TimeCfg.repaired) (s : Schema) (hwf : s.wf env = true)
+    (v : Value) (hv : s.typedOk env v = true) (bs : Bytes) (he : enc env s v = .ok bs) (rest : Bytes) :
+    ∃ v', dec env s (bs ++ rest) = .ok (v', rest) ∧ v'.pyEq v = true :=
+  Kio.roundtrip_pyEq env ht s hwf v hv bs he rest
+
+/-- … and says which instance: `v` with tagged fields that are `==` to their default set to it -/
+theorem roundtrip_canon (env : Env) (ht : env.time = TimeCfg.repaired) (s : Schema) (hwf : s.wf env = true)
+    (v : Value) (hv : s.typedOk env v = true) (bs : Bytes) (he : enc env s v = .ok bs) (rest : Bytes) :
+    dec env s (bs ++ rest) = .ok (s.canon env v, rest) :=
+  Kio.roundtrip_canon env ht s hwf v hv bs he rest
+
+/-- the generalisation is strict: −0.0 in a tagged float field with default 0.0 is well typed, is
+    omitted by the encoder, comes back as 0.0 — equal, not identical -/
+theorem negative_zero_witness :
+    Kio.rqFloatSchema.typedOk Kio.rqEnv Kio.rqNegZero = true
+    ∧ Kio.rqFloatSchema.valueOk Kio.rqEnv Kio.rqNegZero = false
+    ∧ enc Kio.rqEnv Kio.rqFloatSchema Kio.rqNegZero = .ok [0]
+    ∧ (∀ rest, dec Kio.rqEnv Kio.rqFloatSchema ([0] ++ rest) = .ok (Kio.rqPosZero, rest))
+    ∧ Kio.rqPosZero.pyEq Kio.rqNegZero = true ∧ Kio.rqPosZero ≠ Kio.rqNegZero :=
+  ⟨Kio.rqNegZero_typedOk, Kio.rqNegZero_not_valueOk, Kio.rqNegZero_enc, Kio.rqNegZero_dec,
+   Kio.rqPosZero_pyEq, Kio.rqPosZero_ne⟩
 
 set_option maxRecDepth 100000 in
 /-- every shipped class (regenerated from /repo on every run) is coherent -/
